@@ -13,6 +13,9 @@ namespace ve
 {
 using namespace SymEngine;
 
+// numeric mode: plain IEEE evaluation with the host libm also under symx (used for concrete special-value tables)
+static bool g_numeric = false;
+
 struct Unsupported {
     std::string what;
 };
@@ -26,19 +29,22 @@ struct Env {
 
 inline double real_const(const char *name, double native, double lo, double hi)
 {
-    if (!verif_symbolic_exec())
+    if (!verif_symbolic_exec() || g_numeric)
         return native;
     double v = verif_real(name);
-    verif_axiom(v > lo && v < hi);
+    verif_axiom(v > lo);
+    verif_axiom(v < hi);
     return v;
 }
+// The double evaluators use the IEEE literals for pi and E; in the real abstraction these are exact rationals.
 inline double c_pi()
 {
-    return real_const("PI", M_PI, 3.14159265, 3.14159266);
+    return M_PI;
 }
+inline double Exp(double u);
 inline double c_e()
 {
-    return real_const("E", M_E, 2.71828182, 2.71828183);
+    return Exp(1.0); // E is EXP(1): exp(u) is represented as E**u by the library
 }
 inline double ipow(double b, long n)
 {
@@ -51,32 +57,58 @@ inline double ipow(double b, long n)
 // principal 12th root of a positive real
 inline double root12_of(double v)
 {
-    if (!verif_symbolic_exec())
+    if (!verif_symbolic_exec() || g_numeric)
         return std::pow(v, 1.0 / 12);
     double r = verif_uf1("ROOT12", v);
-    verif_axiom(!(v > 0) || (r > 0 && ipow(r, 12) == v));
+    verif_axiom(v <= 0 || r > 0);
+    verif_axiom(v <= 0 || ipow(r, 12) == v);
+    verif_axiom(v != 0 || r == 0);
     return r;
+}
+// axiom instances for an argument u (added once per call; the native replay backend ignores verif_axiom)
+inline void trig_axioms(double u)
+{
+    if (!verif_symbolic_exec() || g_numeric)
+        return;
+    // (the mirrored applications go through verif_uf1: the compiler would fold ::sin(-u) to -::sin(u) by itself)
+    double s = ::sin(u), c = ::cos(u), sm = verif_uf1("SIN", -u), cm = verif_uf1("COS", -u);
+    verif_axiom(s * s + c * c == 1.0);
+    verif_axiom(sm == -s);
+    verif_axiom(cm == c);
+    verif_axiom(u != 0.0 || s == 0.0);
+    verif_axiom(u != 0.0 || c == 1.0);
 }
 inline double Sin(double u)
 {
-    double s = ::sin(u), c = ::cos(u);
-    verif_axiom(s * s + c * c == 1.0 || !verif_symbolic_exec());
-    return s;
+    trig_axioms(u);
+    return ::sin(u);
 }
 inline double Cos(double u)
 {
-    double s = ::sin(u), c = ::cos(u);
-    verif_axiom(s * s + c * c == 1.0 || !verif_symbolic_exec());
-    return c;
+    trig_axioms(u);
+    return ::cos(u);
 }
 inline double Exp(double u)
 {
     double e = ::exp(u);
-    if (verif_symbolic_exec()) {
-        double m = ::exp(-u);
-        verif_axiom(e > 0 && m > 0 && e * m == 1.0);
+    if (verif_symbolic_exec() && !g_numeric) {
+        double m = verif_uf1("EXP", -u);
+        verif_axiom(e > 0);
+        verif_axiom(m > 0);
+        verif_axiom(e * m == 1.0);
+        verif_axiom(u != 0.0 || e == 1.0);
     }
     return e;
+}
+// odd functions with f(0) = 0
+inline double odd_fn(const char *name, double (*f)(double), double u)
+{
+    double v = f(u);
+    if (verif_symbolic_exec() && !g_numeric) {
+        verif_axiom(verif_uf1(name, -u) == -v);
+        verif_axiom(u != 0.0 || v == 0.0);
+    }
+    return v;
 }
 inline double Log(double u)
 {
@@ -85,6 +117,12 @@ inline double Log(double u)
 
 inline double num_value(const Number &n)
 {
+    if (g_numeric) {
+        if (is_a<Integer>(n))
+            return mp_get_d(down_cast<const Integer &>(n).as_integer_class());
+        if (is_a<Rational>(n))
+            return mp_get_d(down_cast<const Rational &>(n).as_rational_class());
+    }
     if (is_a<Integer>(n))
         return verif_mpz_real(get_mpz_t(down_cast<const Integer &>(n).as_integer_class()));
     if (is_a<Rational>(n)) {
@@ -101,6 +139,8 @@ inline double ev(const Basic &b, Env &env);
 // value of base^exp for a positive base given with its 12th root (root may be NaN = unknown)
 inline double pow_value(const Basic &base, const Basic &ex, Env &env)
 {
+    if (is_a<Constant>(base) && eq(base, *E))
+        return Exp(ev(ex, env));
     if (is_a<Integer>(ex)) {
         const Integer &n = down_cast<const Integer &>(ex);
         if (verif_mpz_is_symbolic(get_mpz_t(n.as_integer_class())))
@@ -190,20 +230,20 @@ inline double ev(const Basic &b, Env &env)
             case SYMENGINE_SECH: return 2.0 / (Exp(u) + Exp(-u));
             case SYMENGINE_CSCH: return 2.0 / (Exp(u) - Exp(-u));
             case SYMENGINE_LOG: return Log(u);
-            case SYMENGINE_ASIN: return ::asin(u);
+            case SYMENGINE_ASIN: return odd_fn("ASIN", ::asin, u);
             case SYMENGINE_ACOS: return ::acos(u);
-            case SYMENGINE_ATAN: return ::atan(u);
+            case SYMENGINE_ATAN: return odd_fn("ATAN", ::atan, u);
             case SYMENGINE_ACOT: return ::atan(1.0 / u);
             case SYMENGINE_ASEC: return ::acos(1.0 / u);
             case SYMENGINE_ACSC: return ::asin(1.0 / u);
-            case SYMENGINE_ASINH: return ::asinh(u);
+            case SYMENGINE_ASINH: return odd_fn("ASINH", ::asinh, u);
             case SYMENGINE_ACOSH: return ::acosh(u);
-            case SYMENGINE_ATANH: return ::atanh(u);
+            case SYMENGINE_ATANH: return odd_fn("ATANH", ::atanh, u);
             case SYMENGINE_ACOTH: return ::atanh(1.0 / u);
             case SYMENGINE_ASECH: return ::acosh(1.0 / u);
             case SYMENGINE_ACSCH: return ::asinh(1.0 / u);
-            case SYMENGINE_ERF: return ::erf(u);
-            case SYMENGINE_ERFC: return 1.0 - ::erf(u);
+            case SYMENGINE_ERF: return odd_fn("ERF", ::erf, u);
+            case SYMENGINE_ERFC: return 1.0 - odd_fn("ERF", ::erf, u);
             case SYMENGINE_GAMMA: return ::tgamma(u);
             case SYMENGINE_LOGGAMMA: return ::lgamma(u);
             case SYMENGINE_ABS: return u < 0 ? -u : u;
@@ -235,7 +275,8 @@ inline Env std_env()
     e.val["x"] = verif_real("x");
     e.val["y"] = verif_real("y");
     double rp = verif_real("root12_p"), rq = verif_real("root12_q");
-    verif_assume(rp > 0 && rq > 0);
+    verif_assume(rp > 0);
+    verif_assume(rq > 0);
     e.root12["p"] = rp;
     e.root12["q"] = rq;
     e.val["p"] = ipow(rp, 12);
